@@ -45,7 +45,9 @@ class ThermochemGroupAdditive(ThermochemBase):
             Map from :class:`Group` to int specifying counts of each group in
             the chemical structure.
         """
-        self.name = lib.name
+        self.name = getattr(groups, 'name', None)
+        if self.name is None:
+            self.name = lib.name
         self.correlations = []
         common_min = None
         common_max = None
